@@ -71,5 +71,11 @@ PanelOK(p, s) ==
         /\ p.st = s.st
         /\ IF s.max <= p.asked THEN p.count = 0
            ELSE p.first + p.count = s.max + 1 /\ p.first <= p.asked + 1 /\ p.count > 0)
-  /\ \A k \in 1..Len(p.its) : p.its[k].err = "" /\ p.its[k].ents = Iterate(s, p.its[k].lo, p.its[k].hi, p.its[k].max)
+  /\ \A k \in 1..Len(p.its) :
+        IF p.its[k].below
+          \* a range that starts at or below the removal point: an error or whatever is still there, contiguous from
+          \* the first index asked for - never a crash
+          THEN /\ ~(Len(p.its[k].err) >= 5 /\ SubSeq(p.its[k].err, 1, 5) = "panic")
+               /\ (p.its[k].err = "" => \A j \in 1..Len(p.its[k].ents) : p.its[k].ents[j][1] = p.its[k].lo + j - 1)
+          ELSE p.its[k].err = "" /\ p.its[k].ents = Iterate(s, p.its[k].lo, p.its[k].hi, p.its[k].max)
 =============================================================================
